@@ -49,7 +49,7 @@ PROPS = {
         "filters": tiers("c07"),
         "bounds": {
             "quick": "all 64-bit integer / finite float / boolean payloads; strings of 0..=2 ASCII bytes; lists of 0..=2 scalars; every operator except regex; unwind 2..5 with unwinding assertions",
-            "thorough": "as quick plus strings of 3 bytes (a few shapes of 4), lists of 3 elements (membership also in 4-element lists), membership of a list in a list of lists",
+            "thorough": "as quick plus strings of 3 bytes (a few shapes of 4), 3-element lists against lists of at most one element (3 x 3 element ordering does not finish in 20 min; membership also in 3- and 4-element lists), membership of a list in a list of lists",
         },
         "outside": "regex / not_regex (regex_automata cannot be compiled by kani-compiler 0.68); non-ASCII or longer strings; longer lists; nested lists (a single == on [[i64]] vs [[u64]] takes 253 s, filtering::equals > 15 min); ordering of lists that contain null elements (not documented)",
         "assumptions": COMMON + VALS + [
@@ -60,9 +60,9 @@ PROPS = {
         "filters": tiers("c08"),
         "bounds": {
             "quick": "every triple over {Null, Int64, Uint64, Float64, Boolean} (125 shape triples, all payloads) plus string/enum (<= 2 bytes) and list (<= 2 integers) triples",
-            "thorough": "as quick plus every heap kind (String/Enum <= 2 bytes, lists of 1..2 integers) in each position against every scalar pair, strings/enums of 3 bytes (two triples of 4-byte strings), lists of 3",
+            "thorough": "as quick plus every heap kind (String/Enum <= 2 bytes, lists of 1..2 integers) in each position against every scalar pair, strings/enums of 3 bytes (two triples of 4-byte strings); lists stay <= 2 elements (a triple containing one 3-element list does not finish in 15 min)",
         },
-        "outside": "nested lists (measured: 253 s for one == on depth-2 lists, triples do not finish); strings > 3 bytes, non-ASCII; lists > 3",
+        "outside": "nested lists (measured: 253 s for one == on depth-2 lists, triples do not finish); strings > 4 bytes, non-ASCII; lists > 2",
         "assumptions": COMMON + VALS,
     },
     "C09": {
